@@ -15,6 +15,13 @@ def mk(cls, dt, refrac_t, B=2, n=3):
         return ALIF((n,), dt, rest_v=-60.0, reset_v=-65.0, thresh_eq_v=-50.0, refrac_t=refrac_t, tc_membrane=20.0, tc_adaptation=(30.0, 90.0), spike_increment=(1.0, -0.5), resistance=1.0, batch_size=B)
     if cls == "GLIF2":
         return GLIF2((n,), dt, rest_v=-60.0, reset_v_add=-2.0, reset_v_mul=0.2, thresh_eq_v=-50.0, refrac_t=refrac_t, tc_membrane=20.0, rc_adaptation=(0.03,), spike_increment=(1.5,), resistance=1.0, batch_size=B)
+    if cls == "ALIF-":
+        # NEGATIVE adaptive increments: every spike lowers the threshold, eventually below the reset voltage, so that a
+        # refractory neuron sits at/above its threshold (only the refractory mask keeps it silent)
+        return ALIF((n,), dt, rest_v=-60.0, reset_v=-65.0, thresh_eq_v=-50.0, refrac_t=refrac_t, tc_membrane=20.0, tc_adaptation=(300.0, 900.0), spike_increment=(-4.0, -4.0), resistance=1.0, batch_size=B)
+    if cls == "GLIF2-":
+        # shallow reset (voltage stays close to where it spiked) + negative increment: refractory voltage above threshold
+        return GLIF2((n,), dt, rest_v=-60.0, reset_v_add=0.0, reset_v_mul=0.95, thresh_eq_v=-50.0, refrac_t=refrac_t, tc_membrane=20.0, rc_adaptation=(0.001,), spike_increment=(-2.0,), resistance=1.0, batch_size=B)
     if cls == "QIF":
         return QIF((n,), dt, rest_v=-60.0, crit_v=-55.0, affinity=0.3, reset_v=-62.0, thresh_v=-40.0, refrac_t=refrac_t, time_constant=10.0, resistance=1.0, batch_size=B)
     if cls == "Izhikevich":
@@ -34,6 +41,7 @@ def run(cls, dt, refrac_t, lock, steps, seed):
     window = max(1, math.ceil(refrac_t / dt - 1e-9))
     inp = dict(cls=cls, dt=dt, refrac_t=refrac_t, refrac_lock=lock, seed=seed)
     last = torch.full((2, 3), -10 ** 9, dtype=torch.long)
+    d22 = None
     for t in range(steps):
         x = torch.rand(2, 3) * 60.0 - 10.0
         v0 = n.voltage.clone()
@@ -43,19 +51,28 @@ def run(cls, dt, refrac_t, lock, steps, seed):
         inwin = (t - last) < window
         if (s & inwin).any():
             return {"what": "C03/spike_in_refractory_window", "input": dict(inp, step=t), "expected": "no spike", "actual": "spike"}
+        locked = inwin & ((t - last) >= 1)
         if lock:
-            locked = inwin & ((t - last) >= 1)
             if (locked & (n.voltage != v0)).any():
                 return {"what": "C03/voltage_not_locked", "input": dict(inp, step=t), "expected": "unchanged", "actual": "changed"}
+        elif cls in ("LIF", "GLIF1", "QIF", "EIF"):
+            # refrac_lock=False: a refractory neuron follows the zero-input dynamics; from the reset voltage (not a fixed
+            # point of any of these models with the parameters above) that moves the voltage
+            if (locked & ~s & (n.voltage == v0)).any():
+                return {"what": "C03/voltage_held_although_refrac_lock_is_off", "input": dict(inp, step=t), "expected": "zero-input update", "actual": "unchanged"}
         if not torch.equal(n.spike, s):
-            return {"what": "C03/spike_attribute", "input": dict(inp, step=t), "expected": s.tolist(), "actual": n.spike.tolist()}
+            f = {"what": "C03/spike_attribute", "input": dict(inp, step=t), "expected": s.tolist(), "actual": n.spike.tolist()}
+            if refrac_t != 0:
+                return f
+            # refrac_t == 0 is the recorded finding D22: keep going so that it cannot mask a different failure of this run
+            d22 = d22 or f
         last = torch.where(s, torch.full_like(last, t), last)
-    return None
+    return d22
 
 
 def sweep(tier="quick", seed=0, unsupported=()):
     failures, cases = [], 0
-    classes = ["LIF", "ALIF", "GLIF1", "GLIF2", "QIF", "Izhikevich", "EIF", "AdEx"]
+    classes = ["LIF", "ALIF", "GLIF1", "GLIF2", "QIF", "Izhikevich", "EIF", "AdEx", "ALIF-", "GLIF2-"]
     for cls in classes:
         for dt in ((1.0, 0.5) if tier == "quick" else (1.0, 0.5, 0.1, 1.3)):
             for ratio in (0.0, 0.5, 1.0, 2.5, 3.0):
@@ -68,19 +85,32 @@ def sweep(tier="quick", seed=0, unsupported=()):
 
 
 def replay(contract, label, model, note=""):
-    cls = contract.split(".")[0] if contract.split(".")[0] in ("LIF", "GLIF1", "QIF", "EIF") else "LIF"
-    dt = float(model.get("dt", 1.0)) or 1.0
-    rt = float(model.get("refrac_t", model.get("rt", 0.0)))
-    for lock in (True, False):
-        f = run(cls, dt, rt, lock, 30, 0)
-        if f:
-            return {"reproduced": True, "failure": f, "concrete": f["input"]}
-    for ratio in (0.0, 0.5, 1.0, 2.5):
-        for c_ in ("LIF", "ALIF", "GLIF2", "QIF", "Izhikevich", "EIF", "AdEx"):
-            f = run(c_, 1.0, ratio, True, 30, 0)
-            if f:
-                return {"reproduced": True, "failure": f, "concrete": f["input"], "search": {"points_tried": 28}}
-    return {"reproduced": False, "search": {"points_tried": 30}}
+    from fractions import Fraction
+
+    def g(k, d):
+        try:
+            return float(Fraction(str(model.get(k, d))))
+        except Exception:
+            return d
+
+    cls = contract.split(".")[0] if contract.split(".")[0] in ("LIF", "GLIF1", "QIF", "EIF", "ALIF", "GLIF2", "Izhikevich", "AdEx") else None
+    dt = g("dt", 1.0) or 1.0
+    rt = max(0.0, g("refrac_t", g("rt", 0.0)))
+    tried = 0
+    cands = ([cls] if cls else []) + [c_ for c_ in ("LIF", "ALIF", "GLIF1", "GLIF2", "QIF", "Izhikevich", "EIF", "AdEx", "ALIF-", "GLIF2-") if c_ != cls]
+    for c_ in cands:
+        for d_, r_ in ((dt, rt), (1.0, 2.5), (1.0, 3.0), (0.5, 1.0), (1.0, 1.0), (1.0, 0.5), (1.0, 0.0)):
+            for lock in (True, False):
+                tried += 1
+                try:
+                    f = run(c_, d_, r_, lock, 40, 0)
+                except Exception as e:  # noqa: BLE001
+                    f = {"what": "C03/exception", "input": dict(cls=c_, dt=d_, refrac_t=r_, refrac_lock=lock), "expected": "runs", "actual": f"{type(e).__name__}: {e}"}
+                if f and not (f["what"] == "C03/spike_attribute" and r_ == 0):
+                    return {"reproduced": True, "failure": f, "concrete": f["input"], "search": {"points_tried": tried}}
+        if cls and c_ == cls and "forward" not in contract and "clear" not in contract:
+            break
+    return {"reproduced": False, "search": {"points_tried": tried}}
 
 
 def replay_native(rp):
